@@ -136,7 +136,7 @@ def nb_atten(base, S, p, q):
 
 
 def jobs(tier):
-    N = 3 if tier == "quick" else 4
+    N = 3 if tier == "quick" else 5
     M = c08.MemberShape
     out = []
 
@@ -262,7 +262,7 @@ ASSUMPTIONS = ["numpy/pandas environment model validated per path against the re
 
 
 def bounds(tier):
-    return {"series_length": "1..3" if tier == "quick" else "1..4", "offsets": "symbolic real / whole-second shifts",
+    return {"series_length": "1..3" if tier == "quick" else "1..5", "offsets": "symbolic real / whole-second shifts",
             "perturbation": "every position p, replacement value fully symbolic (incl. missing)"}
 
 
